@@ -21,7 +21,7 @@ def gen(rng, size='small', focus=None):
         return counter[0]
 
     use_batches = focus == 'batches' or rng.random() < 0.1
-    use_resources = focus == 'resources' or rng.random() < 0.2
+    use_resources = focus == 'resources' or rng.random() < (0.45 if focus in ('faults', 'maint') else 0.2)
     use_maint = focus in ('maint', 'faults') or rng.random() < 0.2
     use_groups = focus == 'groups' or rng.random() < 0.12
     use_gates = focus == 'gates' or rng.random() < 0.15
@@ -49,7 +49,7 @@ def gen(rng, size='small', focus=None):
         i = add(e)
         prev.append(i)
         sources.append(i)
-    processors, buffers, blockable = [], [], []
+    processors, buffers, blockable, cyclers = [], [], [], []
     nstages = rng.randint(1, 3) if not big else rng.randint(2, 5)
     in_group_done = False
     for s in range(nstages):
@@ -133,6 +133,8 @@ def gen(rng, size='small', focus=None):
             blockable.append(i)
             if k == 'processor':
                 processors.append(i)
+            if k in ('processor', 'handler'):
+                cyclers.append(i)
             if k == 'buffer':
                 buffers.append(i)
         prev = cur
@@ -192,6 +194,9 @@ def gen(rng, size='small', focus=None):
             ext.append(['at', t + rng.choice([0, 4, 8, 16]), new_script([['restore', d]]), prio])
         elif processors and maints and r < 0.65:
             ext.append(['at', t, new_script([['create_wo', rng.choice(maints), rng.choice(processors), rng.choice([-1, 0])]]), prio])
+        elif cyclers and r < 0.72:
+            # a one-shot cycle-time offset requested from outside (applies to the next cycle only, floored at zero)
+            ext.append(['at', t, new_script([['offset', rng.choice(cyclers), rng.choice([-24, -16, -8, -8, -4, 4, 8])]]), prio])
         elif r < 0.80:
             d = rng.choice(blockable)
             ext.append(['at', t, new_script([['block', d, 1]]), prio])
